@@ -302,7 +302,7 @@ func main() {
 			facts["layout."+fn] = st.layout(fd)
 		}
 	}
-	for _, fn := range []string{"fileStore.flushPages", "fileStore.update", "fileStore.save", "fileStore.fetch", "fileStore.append", "fileStore.close", "fileStore.open",
+	for _, fn := range []string{"fileStore.flushPages", "fileStore.update", "fileStore.save", "fileStore.fetch", "fileStore.append", "fileStore.close", "fileStore.open", "fileStore.startFlusher",
 		"newFileStore", "wal.flush", "wal.read", "WALBatch.replay", "InitStorage", "LRUCache.set", "LRUCache.get",
 		"RelationService.CreateTable", "RelationService.createTable", "RelationService.Insert", "RelationService.Update", "RelationService.MarkDeleted",
 		"RelationService.updatePageTable", "RelationService.StartTxn", "RelationService.EndTxn", "OpenRelation", "CreateDB",
@@ -345,6 +345,7 @@ func main() {
 	facts["storage.callers.update"] = callersOf("update")
 	facts["storage.callers.save"] = callersOf("save")
 	facts["storage.callers.flushPages"] = callersOf("flushPages")
+	facts["storage.callers.startFlusher"] = callersOf("startFlusher")
 	for _, fn := range []string{"fileStore.fetch", "fileStore.update", "btreeNode.encodeLeaf", "btreeNode.decodeLeaf", "btreeNode.decodeInternal", "btreeNode.encodeInternal",
 		"btreeNode.split", "btreeNode.updateCell", "btreeNode.insertLeafCell", "BTree.findCell", "BTree.scanRight", "BTree.scanLeft", "WALBatch.replay", "wal.read", "wal.flush", "LRUCache.set", "LRUCache.get"} {
 		if fd, ok := sf[fn]; ok {
@@ -545,7 +546,20 @@ func lockFacts(facts map[string]interface{}) {
 	facts["lock.logAppendInsideBracket"] = logInside
 	// start-up: the header is read under the exclusive lock (the flusher of the store is already running),
 	// and the only store opened with a flusher outside OpenRelation is none (CreateDB changes pages without a lock)
-	facts["lock.openExclusive"] = hasPrefixSeq(strs(facts["skeleton.storage.fileStore.open"]), "call:f.lockExclusive", "defer:f.unlockExclusive")
+	// the flusher goroutine is started in one place only, as the last step of open(), after every
+	// read of the header: a flush rewrites the header from the fields open() fills
+	op := strs(facts["skeleton.storage.fileStore.open"])
+	lastRead, start := -1, indexOf(op, "call:f.startFlusher")
+	for i, x := range op {
+		if x == "call:binary.Read" {
+			lastRead = i
+		}
+	}
+	nf := strs(facts["skeleton.storage.newFileStore"])
+	sf := strs(facts["skeleton.storage.fileStore.startFlusher"])
+	facts["lock.flusherAfterHeaderRead"] = start > lastRead && lastRead >= 0 && indexOf(nf, "go{") < 0 && indexOf(nf, "call:time.NewTicker") < 0 &&
+		indexOf(sf, "go{") >= 0 && indexOf(sf, "call:f.flushPages") >= 0 &&
+		subset(strs(facts["storage.callers.startFlusher"]), "fileStore.open")
 	fl, _ := facts["storage.newFileStore.autoFlush"].(map[string]string)
 	only := true
 	for caller, arg := range fl {
@@ -663,7 +677,7 @@ func writeLean(dir string, facts map[string]interface{}) {
 	fmt.Fprintf(&lb, "def lockTxnIsSharedLock : Bool := %s\n", bl(facts["lock.txnIsSharedLock"]))
 	fmt.Fprintf(&lb, "def lockPageWritesOnlyInFlush : Bool := %s\n", bl(facts["lock.pageWritesOnlyInFlush"]))
 	fmt.Fprintf(&lb, "def lockLogAppendInsideBracket : Bool := %s\n", bl(facts["lock.logAppendInsideBracket"]))
-	fmt.Fprintf(&lb, "def lockOpenExclusive : Bool := %s\n", bl(facts["lock.openExclusive"]))
+	fmt.Fprintf(&lb, "def lockFlusherAfterHeaderRead : Bool := %s\n", bl(facts["lock.flusherAfterHeaderRead"]))
 	fmt.Fprintf(&lb, "def lockFlusherOnlyAfterOpen : Bool := %s\n", bl(facts["lock.flusherOnlyAfterOpen"]))
 	lb.WriteString("\nend Mkdb.Generated\n")
 	writeIfChanged(filepath.Join(dir, "Locks.lean"), lb.Bytes())
